@@ -119,6 +119,14 @@ def try_builtin(ex, fr, callee, args, dty):
         tup = args[1]
         targs = list(tup.fields) if isinstance(tup, AggV) else []
         return ex.call_value(fr, fv, targs, dty)
+    # ---- async plumbing: awaiting is `into_future` + `Pin::new_unchecked` + `poll` (the poll itself is an environment symbol of the obligation)
+    if re.search(r" as (?:std::future::|core::future::)?IntoFuture>::into_future$", c):
+        return args[0]
+    if re.match(r"^(?:std::pin::|core::pin::)?Pin::<.*>::(new_unchecked|new)$", c):
+        return AggV((args[0],), dty or "Pin")
+    if re.match(r"^(?:std::pin::|core::pin::)?Pin::<.*>::(get_mut|get_unchecked_mut|into_inner|get_ref)$", c):
+        v = args[0]
+        return v.fields[0] if isinstance(v, AggV) and len(v.fields) == 1 else v
     # ---- mem
     if re.match(r"^(?:std|core)::mem::replace$", c):
         old = deref(ex, args[0])
@@ -741,6 +749,27 @@ def list_builtin(ex, fr, c, args, dty):
             for item in lst.items[pos.t:]:
                 acc = ex.call_value(fr, args[2], [acc, ex.ctx.ref_to(item) if it.ty == "ListIterRef" else item], "")
             return acc
+    # RangeInclusive<int>: (start, end, exhausted)
+    m = re.match(r"^(?:std::ops::|core::ops::)?RangeInclusive::<(\w+)>::new$", c)
+    if m:
+        return AggV((args[0], args[1], BoolV(False)), "RangeInclusive<%s>" % m.group(1))
+    m = re.match(r"^<(?:std::ops::|core::ops::)?RangeInclusive<(\w+)> as (?:std::iter::|core::iter::)?IntoIterator>::into_iter$", c)
+    if m:
+        return args[0]
+    m = re.match(r"^<(?:std::ops::|core::ops::)?RangeInclusive<(\w+)> as (?:std::iter::|core::iter::)?Iterator>::next$", c)
+    if m and isinstance(args[0], RefV):
+        r = deref(ex, args[0])
+        if isinstance(r, AggV) and len(r.fields) == 3 and isinstance(r.fields[0], IntV):
+            start, end, done = r.fields
+            if isinstance(done, BoolV) and done.t is True:
+                return mk_option(False, None, dty)
+            if ex.decide(T.le(start.t, end.t)):
+                if ex.decide(T.lt(start.t, end.t)):
+                    _wr(ex, args[0], AggV((IntV(T.add(start.t, 1), start.ty), end, BoolV(False)), r.ty))
+                else:
+                    _wr(ex, args[0], AggV((start, end, BoolV(True)), r.ty))
+                return mk_option(True, start, dty)
+            return mk_option(False, None, dty)
     # Range<int>
     m = re.match(r"^<(?:std::ops::|core::ops::)?Range<(\w+)> as (?:std::iter::|core::iter::)?IntoIterator>::into_iter$", c)
     if m:
